@@ -173,6 +173,7 @@ impl Var {
     fn vec_val_to_vec_i16(&self, mut arr: Stack<Val>) -> Result<Vec<i16>> {
         let mut vec_i16: Vec<i16> = vec![];
         for val in arr.drain(..) {
+            let numeric = matches!(val, Val::Integer(_) | Val::Single(_) | Val::Double(_));
             match i16::try_from(val) {
                 Ok(num) => {
                     if num < 0 {
@@ -180,6 +181,8 @@ impl Var {
                     }
                     vec_i16.push(num)
                 }
+                // a number too large for an Integer is out of range like any other
+                Err(_) if numeric => return Err(error!(SubscriptOutOfRange)),
                 Err(e) => return Err(e),
             }
         }
